@@ -167,6 +167,12 @@ theorem own_block_accepted (fl : Flags) (hc : fl.atrCapUsesParentTreasury = true
   rw [hstep]
   simp [atrStep, hh, hsig, number_length, hlen]
 
+/-- with the repaired input slip every ATR transaction of the produced block spends a spendable slip: a node that
+    propagates the per-transaction verdict (`txVerdictPropagated`) does not reject its own block for that reason -/
+theorem own_block_inputs_valid (fl : Flags) (hf : fl.atrSpendsOriginalKey = true) (p : Params) (u : List Slip)
+    (outs : List Out) : atrInputsValid fl p u outs = true :=
+  atrInputsValid_of_keyOk (Or.inl hf) u outs
+
 /-! ## what holds on the pinned tree: everything, as long as the payout multiplier is 1 -/
 
 theorem atr_exactly_once_partial (p : Params) (hm : mult p = 1) (u : List Slip) (outs : List Out)
@@ -202,6 +208,11 @@ theorem atr_exactly_once_src_partial (fl : Flags) (p : Params) (u : List Slip) (
     (hnd : (outs.map (·.s)).Nodup) (o : Out) (ho : o ∈ outs) (hel : eligible u o.s = true) :
     ((atrStep fl p u outs).rbs.map (·.src)).count o.s + (atrStep fl p u outs).dust.count o.s = 1 :=
   exactly_once_src fl p u outs hnd o ho hel
+
+/-- the same for the pinned input slip while the multiplier is 1 -/
+theorem own_block_inputs_valid_partial (fl : Flags) (p : Params) (hm : mult p = 1) (u : List Slip) (outs : List Out) :
+    atrInputsValid fl p u outs = true :=
+  atrInputsValid_of_keyOk (Or.inr hm) u outs
 
 /-- with multiplier 1 nothing is paid by the treasury, the cap never applies, and the node accepts its own block -/
 theorem own_block_accepted_partial (p : Params) (hm : mult p = 1) (u : List Slip) (outs : List Out) :
@@ -248,6 +259,15 @@ theorem minted_value_witness :
     ownBlock {} wP mU mOuts = .supplyPanic ∧ (produce {} wP mU mOuts).payout = 0 ∧
     (produce {} wP mU mOuts).rbs.map (·.out.amt) = [1360, 119] ∧
     (⟨4, 2, 1, 1, 80, 0⟩ : Slip) ∈ windAtr (produce {} wP mU mOuts).rbs mU := by decide +kernel
+
+/-- `txVerdictPropagated`: the same block (`w-mint`, block 8) — its ATR inputs (amounts 1360, 119) are not in the utxo
+    set. Pinned: the verdict is discarded, the block is wound and the supply check panics; with the verdict
+    propagated (and nothing else repaired) the node rejects the block it produced -/
+theorem tx_verdict_witness :
+    atrInputsValid {} wP mU mOuts = false ∧
+    ownBlock {} wP mU mOuts = .supplyPanic ∧
+    ownBlock { txVerdictPropagated := true } wP mU mOuts = .invalid ∧
+    ownBlock Flags.fixed wP mU mOuts = .ok := by decide +kernel
 
 /-- history `w-hash`, block 10 (fee per byte 10, multiplier 3, cap on both sides): fees and payout agree, the
     commitment hash does not, because it is taken before the cap branch rewrites the amounts -/
